@@ -75,16 +75,19 @@ def parse_file_instances():
             dict(name="parsefile-empty-name", path="", want=-1)]
 
 
-def run(verdict, exe, tier, tag="stress", sigprefix="stress"):
+def run(verdict, exe, tier, tag="stress", sigprefix="stress", only=None):
     scripts, meta = [], {}
-    for k, inst in enumerate(instances(tier)):
+    insts = instances(tier)
+    if only:
+        insts = [i for i in insts if i["name"].startswith(tuple(only))]
+    for k, inst in enumerate(insts):
         lines = list(SCHEMA) + inst["extra"] + ["init c1 S %d" % inst["flags"], "dump 0",
                  "parsebuf c1 %s" % enc(inst["text"]), "dump 1", "print c1",
                  "parsebuf c1 %s" % enc("s = again"), "free c1"]
         bid = "s%d" % k
         scripts.append((bid, "\n".join(lines)))
         meta[bid] = inst
-    for k, inst in enumerate(parse_file_instances()):
+    for k, inst in enumerate([] if only else parse_file_instances()):
         lines = list(SCHEMA) + ["init c1 S 0", "dump 0", "parsefile c1 %s" % enc(inst["path"]), "dump 1", "print c1",
                                 "parsebuf c1 %s" % enc("s = again"), "free c1"]
         bid = "f%d" % k
